@@ -59,6 +59,11 @@ PROPS = {
     }),
 }
 
+PROPS["C09"] = dict(level="exploration", race=False, tiers={
+    "quick": [dict(variant="", runs=6000, budget_s=75)],
+    "thorough": [dict(variant="", runs=400000, budget_s=2400), dict(variant="bigc", runs=60, budget_s=900, workers=1)],
+})
+
 RULES = {}
 ASSUME = {}
 
